@@ -84,6 +84,7 @@ FAMILIES["mode"] = {
 PROPS = {
     "C09": {"custom": "funcheck"},
     "C19": {"custom": "funcheck"},
+    "C18": {"custom": "funcheck"},
     "C02": {"families": ["mode", "fault", "data"]},
     "C01": {"families": ["data", "gen"]},
     "C03": {"families": ["gen", "life"]},
